@@ -227,7 +227,7 @@ impl<F: Field> SuccinctCheckPolynomial<F> {
         let mut product = F::one();
         for (i, challenge) in challenges.iter().enumerate() {
             let i = i + 1;
-            let elem_degree: u64 = (1 << (log_d - i)) as u64;
+            let elem_degree: u64 = 1u64 << (log_d - i);
             let elem = point.pow([elem_degree]);
             product *= &(F::one() + &(elem * challenge));
         }
